@@ -226,7 +226,68 @@ def run_rest(case, ctx):
     ctx.mark_nontrivial(abs(case['roll']) > 5 and abs(case['pitch']) > 5 and abs(case['lat']) > 1)
 
 
+def sine_strategy():
+    return st.fixed_dictionaries({
+        'lat0': st.sampled_from([55.0, -33.0, 2.0, -75.0, 75.0]), 'lon0': st.sampled_from([10.0, -120.0, 179.9]),
+        'alt0': st.sampled_from([0.0, 3000.0]),
+        'vmean': st.lists(st.sampled_from([0.0, 1.0, -5.0, 20.0, -60.0]), min_size=2, max_size=2),
+        'vdown': st.sampled_from([0.0, 0.5, -1.0]),
+        'amp': st.sampled_from([0.0, 1.0, 5.0]), 'period': st.sampled_from([20.0, 60.0]),
+        'phase': st.lists(st.sampled_from([0.0, 90.0, 45.0, 180.0]), min_size=3, max_size=3),
+        'sensor_type': st.sampled_from(['rate', 'increment']), 'T': st.sampled_from([20.0, 40.0]),
+    })
+
+
+def run_sine_motion(case, ctx):
+    """sim.generate_sine_velocity_motion: velocity law, position = integral of velocity, strapdown round trip."""
+    from pyins import sim, strapdown
+    vmean = np.array(case['vmean'] + [case['vdown']], float)
+    amp = np.array([case['amp'], case['amp'], 0.2 * case['amp']])
+    # heading follows the velocity direction: the motion is smooth only while the horizontal speed stays away from zero
+    tt = np.arange(0, case['T'], 0.01)
+    vh = vmean[:2] + amp[:2] * np.sin(2 * np.pi * tt[:, None] / case['period'] + np.deg2rad(case['phase'][:2]))
+    if np.hypot(vh[:, 0], vh[:, 1]).min() < 1.0:
+        vmean[0] += (2.0 + 1.5 * case['amp']) * (1 if vmean[0] >= 0 else -1)
+    lla0 = [case['lat0'], case['lon0'], case['alt0']]
+    stype = case['sensor_type']
+    ctx.label(f'type={stype}', 'hemi=' + ('N' if case['lat0'] >= 0 else 'S') + ('E' if case['lon0'] >= 0 else 'W'))
+    rts, dps = [], []
+    for dt in (0.1, 0.05, 0.025):
+        tr, imu = ctx.sut(sim.generate_sine_velocity_motion, dt, case['T'], lla0, vmean, amp, case['period'], case['phase'], stype)
+        t = np.asarray(tr.index, float)
+        ctx.check(np.array_equal(t, np.arange(0, case['T'], dt)) and tr.index.equals(imu.index), 'time_index', '')
+        v = vmean + amp * np.sin(2 * np.pi * t[:, None] / case['period'] + np.deg2rad(case['phase']))
+        ev = np.abs(tr[['VN', 'VE', 'VD']].values - v).max()
+        ctx.check(ev <= 64 * np.spacing(np.abs(v).max() + 1.0), 'velocity_law', lambda: f'case={case}: returned velocity differs from the documented law by {ev:.3e}')
+        ctx.check(np.all(tr['roll'].values == 0.0), 'roll_not_zero', '')
+        hd = np.degrees(np.arctan2(v[:, 1], v[:, 0]))
+        ctx.check(np.abs((tr['heading'].values - hd + 180) % 360 - 180).max() <= 1e-9, 'heading_not_along_velocity', '')
+        ctx.check(np.abs(tr[['lat', 'lon', 'alt']].values[0] - lla0).max() <= 1e-12, 'initial_position', '')
+        # position is the integral of the velocity: central differences of own-geodesy position vs velocity
+        rm, rt = W.radii(tr['lat'].values, tr['alt'].values)
+        dn = np.gradient(tr['lat'].values, t) * W.D2R * rm
+        de = np.gradient(((tr['lon'].values - case['lon0'] + 180) % 360 - 180), t) * W.D2R * rt * np.cos(np.radians(tr['lat'].values))
+        dd = -np.gradient(tr['alt'].values, t)
+        dps.append(np.abs(np.column_stack([dn, de, dd])[2:-2] - v[2:-2]).max())
+        inc = ctx.sut(strapdown.compute_increments_from_imu, imu, stype)
+        back = ctx.sut(strapdown.Integrator(tr.iloc[0]).integrate, inc)
+        rts.append(c01.table_distance(back, tr))
+    rts = np.array(rts)
+    vmax = np.abs(vmean).max() + case['amp']
+    for k in range(2):
+        ctx.stat('sine_position_derivative', dps[k + 1] / (0.75 * dps[k] + 1e-6 * (1 + vmax)))
+        ctx.check(dps[k + 1] <= 0.75 * dps[k] + 1e-6 * (1 + vmax), 'position_not_integral_of_velocity',
+                  lambda: f'case={case}: d(position)/dt - velocity over the ladder: {dps}')
+        for g in range(3):
+            fl = [2e-4, 2e-5, 2e-8][g]
+            ctx.stat(f'sine_roundtrip_{c01.NAMES[g]}', rts[k + 1, g] / (0.75 * rts[k, g] + fl))
+            ctx.check(rts[k + 1, g] <= 0.75 * rts[k, g] + fl, f'sine_roundtrip_no_convergence:{c01.NAMES[g]}',
+                      lambda: f'case={case}: round trip {c01.NAMES[g]} error over the ladder {rts[:, g].tolist()}')
+    ctx.mark_nontrivial(case['amp'] > 0 and vmax >= 5)
+
+
 CLAUSES = [
+    Clause('sine_motion', sine_strategy, run_sine_motion, quick=(32, 4), thorough=(1200, 16), shrink_quick=False),
     Clause('truth', case_strategy, run_truth, quick=(48, 8), thorough=(1600, 16), shrink_quick=False),
     Clause('rest', rest_strategy, run_rest, quick=(200, 4), thorough=(8000, 16)),
 ]
